@@ -43,6 +43,31 @@ func init() {
 		curB := wire
 		outs := []any{}
 		seq := uint64(10)
+		// optional quiet period first: rounds in which the definitions the nodes see ARE the outcome's (nothing to vote
+		// for), on the same plugin instance — a node that has been running for a while before the definitions change
+		if in["quietRounds"] != nil && jInt(in["quietRounds"]) > 0 {
+			q := jInt(in["quietRounds"])
+			hp.defs.defs = jDefs(jget(in["start"], "defs"))
+			for i := 0; i < q; i++ {
+				seq++
+				outctx := ocr3types.OutcomeContext{SeqNr: seq, PreviousOutcome: curB}
+				ob, err := hp.p.Observation(context.Background(), outctx, nil)
+				if err != nil {
+					return J{"harness-error": "quiet round: " + err.Error()}
+				}
+				var aos []types.AttributedObservation
+				for k := 0; k < 2*hp.p.F+1; k++ {
+					aos = append(aos, types.AttributedObservation{Observation: ob, Observer: commontypes.OracleID(k)})
+				}
+				outB, err := hp.p.Outcome(context.Background(), outctx, nil, aos)
+				if err != nil {
+					return J{"harness-error": "quiet round: " + err.Error()}
+				}
+				wire = append(wire[:0], outB...)
+				curB = wire
+			}
+			hp.defs.defs = jDefs(in["target"])
+		}
 		for _, r := range jArr(in["rounds"]) {
 			seq++
 			outctx := ocr3types.OutcomeContext{SeqNr: seq, PreviousOutcome: curB}
@@ -251,6 +276,11 @@ func genC14(g *G) {
 			}
 		}
 		startO := J{"stage": "production", "ts": S(w.now), "defs": mk(start), "va": startVA, "aggs": []any{}}
+		if tag == "replacement-after-a-long-quiet-period" {
+			// (implementation only: the model starts from the start outcome; the quiet rounds change no definition)
+			g.EmitImpl(J{"op": "llo.converge", "cfg": w.cfgJ(), "start": startO, "target": mk(target), "rounds": rounds, "bound": bound, "quietRounds": 133}, tag, "f="+S(w.f), "bound="+S(bound))
+			return
+		}
 		g.Emit(J{"op": "llo.converge", "cfg": w.cfgJ(), "start": startO, "target": mk(target), "rounds": rounds, "bound": bound}, tag, "f="+S(w.f), "bound="+S(bound))
 	}
 	n := g.N(120, 1500)
@@ -363,6 +393,20 @@ func genC14(g *G) {
 		emit(w, start, target, "same-size-in-place-replacement")
 	}
 	{
+		// the nodes have agreed on the same definitions for 133 rounds; then six of eight are replaced in place
+		w := newWorld(g)
+		w.hasPred = false
+		start, target := map[int]J{}, map[int]J{}
+		for id := 1; id <= 8; id++ {
+			start[id] = J{"format": "2", "streams": []any{J{"sid": S(10 + id), "agg": "1"}}, "opts": ""}
+			target[id] = start[id]
+			if id <= 6 {
+				target[id] = J{"format": "2", "streams": []any{J{"sid": S(40 + id), "agg": "1"}, J{"sid": "7", "agg": "2"}}, "opts": "01"}
+			}
+		}
+		emit(w, start, target, "replacement-after-a-long-quiet-period")
+	}
+	{
 		// four wide channels that share almost all their streams: 4 × 2 602 mentions in ONE round's votes (more than
 		// any limit on DISTINCT streams), 2 608 distinct streams: within every limit, must converge in one round
 		w := newWorld(g)
@@ -426,11 +470,19 @@ func monC14(op J, res any) (viol []Violation, nontrivial bool) {
 	if jStr(op["op"]) != "llo.converge" {
 		return
 	}
+	bad := func(sig, d string) { viol = append(viol, Violation{Sig: "C14/" + sig, Desc: d, Op: op, Res: res}) }
+	if jObj(res)["panic"] != nil {
+		bad("panic", "a callback panicked while the script ran: "+jStr(jObj(res)["panic_msg"]))
+		return
+	}
+	if he := jObj(res)["harness-error"]; he != nil {
+		bad("script-could-not-run", "the convergence script could not be carried out: "+fmt.Sprint(he))
+		return
+	}
 	outs := jArr(jObj(res)["ok"])
 	if outs == nil {
 		return
 	}
-	bad := func(sig, d string) { viol = append(viol, Violation{Sig: "C14/" + sig, Desc: d, Op: op, Res: res}) }
 	target := canon(jArr(op["target"]))
 	nontrivial = canon(jArr(jObj(op["start"])["defs"])) != target
 	bound := jInt(op["bound"])
